@@ -488,16 +488,29 @@ class Interp:
         bshape = idx.shape[:-1]
         if tuple(dn.offset_dims) != tuple(range(len(bshape), len(bshape) + x.ndim - 1)):
             raise NotEncodable(f"gather offset dims {dn}")
-        mode = str(e.params.get("mode"))
+        mode = str(e.params.get("mode")).lower()
         out = np.empty(tuple(bshape) + tuple(x.shape[1:]), dtype=object)
+        so = sort_of(e.outvars[0].aval.dtype)
         for b in np.ndindex(*bshape):
             i = idx[b + (0,)]
             inb = tm.band(tm.cmp("le", const(0, "Int"), i), tm.cmp("lt", i, const(n, "Int")))
-            self.ctx.oblig.append(("gather index in bounds", inb))
             r = x[n - 1]
             for k in range(n - 2, -1, -1):
-                c = tm.cmp("eq", i, const(k, "Int"))
+                c = tm.cmp("eq", i, const(k, "Int")) if k > 0 or "clip" not in mode else tm.cmp("le", i, const(0, "Int"))
                 r = arr_ite(c, x[k], r) if isinstance(r, np.ndarray) else tm.ite(c, x[k], r)
+            if "fill" in mode:
+                # out-of-bounds rows are filled (NaN for floats): a fresh unconstrained symbol per element
+                self.ctx.fresh += 1
+                if isinstance(r, np.ndarray):
+                    fillv = np.empty(r.shape, dtype=object)
+                    for ix in np.ndindex(*r.shape): fillv[ix] = tm.var(f"FILL!gather!{self.ctx.fresh}" + "".join(f"_{q}" for q in ix), so)
+                    r = arr_ite(inb, r, fillv)
+                else:
+                    r = tm.ite(inb, r, tm.var(f"FILL!gather!{self.ctx.fresh}", so))
+            elif "clip" in mode:
+                pass            # indices are clamped: x[0] for i <= 0 (above), x[n-1] for i >= n-1 (the chain's default)
+            else:
+                self.ctx.oblig.append(("gather index in bounds", inb))
             out[b] = r
         return out
 
